@@ -19,6 +19,8 @@ CHECKS = {
          "Lean 4 proof (row exactness of the error report and of dropRows) + differential correspondence", "5/C11"),
  "C05": ("Lean: Effects IR with a verified analyser (restores_sound: accepted skeletons restore every tracked location on every path, any callback raising); history theorem by induction over operation lists; per-run obligations restores(skeleton)=true for the mutate-then-revert functions translated from the source (run_schema_component_checks, validate_column, config_context, polars validate). Differential: random operation histories on real schemas with a structural fingerprint of the object graph after every operation and verdict stability on probe frames",
          "Lean 4 proof (verified save/restore analyser + history induction) + translator (Effects skeletons) + differential fingerprints", "5/C05"),
+ "C06": ("Lean theorems: a raising check function (element-wise or vectorised, any options) is reported as a check error, never an escaping exception; the parse/validate model has no internal failure mode (validate_channel: returns or raises the collected errors); every exceptional execution of the mutate-then-revert skeletons regenerated from the source restores the tracked state (restores_sound). Differential: exhaustive fault injection at every invocation of every user callback (checks, parsers) with outcome class, schema fingerprint, config context and input snapshot; fault-free scans of pandas and polars for leaked exception classes",
+         "Lean 4 proof (verified analyser over regenerated skeletons, fault-to-failure theorems) + exhaustive fault-position enumeration against the implementation", "5/C06"),
 }
 NA = {}
 for i in range(1, 21):
